@@ -626,6 +626,13 @@ func c12Hostile(e *env) {
 		var firstBad string
 		for i := 0; i < n; i++ {
 			stream := hostileStream(r, name)
+			if i < len(hostileFields) {
+				// FaultCases.tla HostileFields: field lines aimed at the parsers the proxy runs itself on every request
+				stream = []byte("GET http://origin.test/a HTTP/1.1\r\nHost: origin.test\r\n" + hostileFields[i] + "\r\n\r\n")
+				if name == "pp" {
+					stream = append([]byte("PROXY TCP4 1.2.3.4 5.6.7.8 1 2\r\n"), stream...)
+				}
+			}
 			wg.Add(1)
 			sem <- struct{}{}
 			go func(i int, stream []byte) {
@@ -707,6 +714,28 @@ func probeStacking(f *fwd, name string) error {
 		return fmt.Errorf("status %d", r.Status)
 	}
 	return nil
+}
+
+// hostileFields: the spellings of FaultCases.tla HostileFields, in the order of its Seq
+var hostileFields = []string{
+	"Via: 1.1 alpha (never closed\\",       // viaOpenCommentBackslashEnd
+	"Via: (\\",                              // viaOnlyCommentBackslash
+	"Via: 1.1 a (b (c (d \\) e",             // viaNestedQuotedPair
+	"Via: \\",                               // viaBackslash
+	"Via: ,,(,),,",                           // viaEmptyElements
+	"Via: 1.1",                               // viaNoReceivedBy
+	"Via: " + strings.Repeat("(", 4000),      // viaDeepNesting
+	"Forwarded: for=\"unterminated",          // forwardedOpenQuote
+	"Forwarded: ;;;=,=;",                     // forwardedEmptyPairs
+	"X-Forwarded-For: , ,,",                  // xffEmptyElements
+	"Connection: \\, (, close",              // connectionOddTokens
+	"Proxy-Authorization: Basic",             // proxyAuthNoCredentials
+	"Proxy-Authorization: Basic ====",        // proxyAuthPaddingOnly
+	"Authorization: Basic \x80\x81",          // authorizationNotUTF8
+	"Upgrade: ,",                             // upgradeEmptyToken
+	"Keep-Alive: timeout=-1, max=",           // keepAliveOddParams
+	"TE: trailers;q=",                        // teOddParams
+	"Accept-Encoding: gzip;q=1.0000000000000000000000000000000001", // aeLongWeight
 }
 
 func hostileStream(r *rand.Rand, stacking string) []byte {
